@@ -203,7 +203,15 @@ func (sg *sqlGen) colName(used map[string]bool, label string) string {
 		if try > 2 {
 			w = fmt.Sprintf("%s%d", w, try)
 		}
-		if !used[w] {
+		isTable := false
+		for _, tb := range sg.tables {
+			if tb.name == w {
+				// a column named like a table struct would be rewritten inside the directives (every whole-word
+				// occurrence of a table-struct name is a table reference, by the statement of C16): outside the domain
+				isTable = true
+			}
+		}
+		if !used[w] && !isTable {
 			used[w] = true
 			return w
 		}
